@@ -207,6 +207,7 @@ type Sim struct {
 	elig      []*Task
 	live      int
 	decisions int
+	quiescing bool
 	finished  bool
 
 	// Deadlock is set when no task could make progress.
@@ -918,7 +919,9 @@ func (s *Sim) pick() int {
 //go:norace
 func (s *Sim) strategyPick(r *Rand, el []*Task) int {
 	n := len(el)
-	if s.Cfg.PAdvance > 0 && r.Intn(1000) < s.Cfg.PAdvance {
+	// no clock preemption while a task waits for quiescence: more ticks would
+	// only keep the periodic work from ever finishing
+	if s.Cfg.PAdvance > 0 && !s.quiescing && r.Intn(1000) < s.Cfg.PAdvance {
 		return n
 	}
 	curElig := s.last != nil && el[0] == s.last
@@ -1052,7 +1055,11 @@ func (s *Sim) describeStuck() string {
 //go:norace
 func (s *Sim) collect() {
 	s.elig = s.elig[:0]
+	s.quiescing = false
 	for _, t := range s.tasks {
+		if t.reqKind == OpQuiesce && t.state == stParked {
+			s.quiescing = true
+		}
 		if t.reqKind != OpQuiesce && s.eligible(t) {
 			s.elig = append(s.elig, t)
 		}
